@@ -1,7 +1,7 @@
 (* C07 -- pretty-printed EXPRESS is valid, equivalent to its source and stable: the
    parenthesisation rule of expressions.  Only statements closed by [exact]. *)
 From Coq Require Import List NArith Bool.
-From SC Require Import gen.PPRule ExpPP ExpPP_Proofs.
+From SC Require Import gen.PPRule ExpPP ExpPP_Proofs ExpParse ExpParse_Proofs.
 Import ListNotations.
 
 (* What exppp prints for an expression is a function of the tree with nests of one chain
@@ -26,6 +26,30 @@ Print Assumptions c07_reading_back_loses_nothing.
 Theorem c07_printing_again_changes_nothing : forall e, print_top (unflat (flat e)) = print_top e.
 Proof. exact reprint_stable. Qed.
 Print Assumptions c07_printing_again_changes_nothing.
+
+(* The printed text can be read without any operator precedence: a reader that only knows
+   parentheses, and accepts an unparenthesised run of operands only under one chain operator
+   (or a single operator), recovers the flattened tree from the text of every expression whose
+   operators are real ones.  So exppp never relies on precedence or on the associativity of
+   "-", "/", "**", comparisons ... to be understood, and the text determines the tree up to the
+   nesting of a chain operator. *)
+Theorem c07_text_determines_tree : forall e, ops_known e = true -> parse (print_top e) = Some (flat e).
+Proof. exact parse_print. Qed.
+Print Assumptions c07_text_determines_tree.
+
+Theorem c07_printing_is_injective_up_to_chains : forall e e',
+  ops_known e = true -> ops_known e' = true -> print_top e = print_top e' -> flat e = flat e'.
+Proof. exact print_injective. Qed.
+Print Assumptions c07_printing_is_injective_up_to_chains.
+
+(* non-vacuity: the reader rejects what exppp would print if it dropped the parentheses of
+   x - (y - z), and reads the real text back *)
+Example c07_reader_example :
+  let x := Atom [120%N] in let y := Atom [121%N] in let z := Atom [122%N] in
+  parse [TAtom [120%N]; TOp 17; TAtom [121%N]; TOp 17; TAtom [122%N]]%N = None /\
+  parse (print_top (Bin 17 x (Bin 17 y z))) = Some (CB 17 (CA [120%N]) (CB 17 (CA [121%N]) (CA [122%N])))%N /\
+  ops_known (Bin 17 x (Bin 17 y z)) = true.
+Proof. vm_compute. repeat split. Qed.
 
 (* non-vacuity: a - (b + (c + d)) * e : the inner sum is printed as one chain *)
 Example c07_example :
